@@ -26,9 +26,9 @@ WALL_CAP = {'quick': 600, 'thorough': 3000}
 
 OBJ_TAMPERS = ['out_value', 'out_script', 'add_output', 'remove_output', 'outpoint_n', 'outpoint_hash', 'sequence',
                'locktime', 'version', 'in_amount', 'sig_flip', 'sig_outsider', 'sig_other_digest', 'drop_sig',
-               'drop_sig_pad', 'version_bytes', 'version_int']
+               'drop_sig_pad', 'version_bytes', 'version_int', 'coinbase_flag_out_value']
 BYTE_TAMPERS = ['out_value', 'out_script', 'add_output', 'remove_output', 'outpoint_n', 'outpoint_hash', 'sequence',
-                'locktime', 'version', 'in_amount', 'sig_flip', 'drop_sig', 'drop_sig_pad']
+                'locktime', 'version', 'in_amount', 'sig_flip', 'drop_sig', 'drop_sig_pad', 'add_null_input']
 
 
 def _expected_by_construction(plan):
@@ -68,7 +68,7 @@ def _ref_verdict(raw, plan, amounts):
 
 def _save_object(t):
     return {'outputs': list(t.outputs), 'out_fields': [(o.value, o.lock_script) for o in t.outputs],
-            'locktime': t.locktime, 'version': t.version, 'version_int': t.version_int,
+            'locktime': t.locktime, 'version': t.version, 'version_int': t.version_int, 'coinbase': t.coinbase,
             'inputs': [(i.prev_txid, i.output_n, i.output_n_int, i.sequence, i.value, list(i.signatures))
                        for i in t.inputs]}
 
@@ -79,6 +79,7 @@ def _restore_object(t, s):
         o.value = v
         o.lock_script = ls
     t.locktime, t.version, t.version_int = s['locktime'], s['version'], s['version_int']
+    t.coinbase = s['coinbase']
     for i, (ptx, on, oni, seq, val, sigs) in zip(t.inputs, s['inputs']):
         i.prev_txid, i.output_n, i.output_n_int, i.sequence, i.value = ptx, on, oni, seq, val
         i.signatures[:] = sigs
@@ -94,6 +95,11 @@ def _tamper_object(t, plan, tam, amounts):
     inp = plan['inputs'][k]
     li = t.inputs[k]
     if op == 'out_value':
+        t.outputs[j].value += 1
+    elif op == 'coinbase_flag_out_value':
+        # the coinbase attribute is descriptive metadata (set from provider data or when a null outpoint is seen); it
+        # is not part of what is signed and cannot stand in for the signatures of inputs that spend real outputs
+        t.coinbase = True
         t.outputs[j].value += 1
     elif op == 'out_script':
         ls = bytearray(t.outputs[j].lock_script)
@@ -213,6 +219,11 @@ def _tamper_bytes(raw, plan, tam, amounts):
         if len(tx.vout) < 2:
             return None
         tx.vout.pop(j)
+    elif op == 'add_null_input':
+        # one more input, appended, whose outpoint is the null outpoint of a coinbase input: every SIGHASH_ALL
+        # signature of the other inputs committed to the input list without it
+        tx.vin.append(wire.TxIn(bytes(32), 0xffffffff, bytes([2 + tam['b'] % 3]) + bytes(range(tam['b'] % 3 + 2)),
+                                0xffffffff))
     elif op == 'outpoint_n':
         tx.vin[k].prev_n = (tx.vin[k].prev_n + 1) & 0xffffffff
         if tx.vin[k].prev_n == 0xffffffff:
